@@ -14,8 +14,7 @@ def sym_candle(ctx, name, ts, lo=50, hi=200, volume=10.0, sym_volume=False, assu
     l = ctx.real(name + '_l', lo, hi, npf=True)
     v = ctx.real(name + '_v', 0, 1000, npf=True) if sym_volume else np.float64(volume)
     if assume_valid:
-        ctx.solver.add(l.t <= o.t, l.t <= c.t, o.t <= h.t, c.t <= h.t)
-        ctx.model = None
+        ctx.constrain((l <= o) & (l <= c) & (o <= h) & (c <= h))
     row = np.empty(6, dtype=object)
     row[0] = ts
     row[1], row[2], row[3], row[4], row[5] = o, c, h, l, v
